@@ -86,6 +86,17 @@ prop(
     explanation="",
 )
 
+prop(
+    "C19",
+    contract_modules=["contracts.c19"],
+    bcc="c19",
+    level="proof",
+    claimed=False,
+    trusted=["numpy.array-model"],
+    assumptions=[],
+    explanation="",
+)
+
 # ---- stubs (filled in as the contracts are written) -------------------------------------------
 for _pid in ["C01", "C02", "C03", "C04", "C05", "C06", "C07", "C08", "C09", "C10", "C11", "C12", "C13", "C14",
              "C15", "C16", "C17", "C19", "C20"]:
